@@ -43,3 +43,8 @@ claim("C12",
       "Every accepted valid-UTF-8 query generated (all operators, leaf forms, hostile strings incl. empty / non-ASCII / \"min\": / * ? / slashes, int edges above 2^53, decimals, NaN-like words, boost and fuzzy parameters) is encoded, decoded, validated, shape-checked, re-encoded (byte-identical), printed and rendered inline and parameterized (identical incl. errors); deep equality is required unless the tree holds one of the three exempted leaf forms, whose rate is reported.",
       "encoding/json and reflect.DeepEqual are trusted; queries with invalid UTF-8 are outside the property.",
       "DESIGN.md section 4, C12")
+claim("C13",
+      "exhaustive small documents + rapid schema-aware / corrupted documents + byte-mutated encodings; no-panic oracle with Validate as the guard",
+      "Every scalar of a 42-entry pool in every slot of 26 operator templates, rapid schema-aware documents (well-formed and member-corrupted), byte mutations of real encodings and nesting to 2000 levels are decoded under recover; whenever decoding succeeds and Validate passes, String, %#v, json.Marshal, Render and RenderParam must each return normally. The decoded+validated population (the one that exercises clause 2) is counted separately.",
+      "Nothing is asserted about what the operations return. encoding/json is trusted. Nesting beyond 2000 levels would test the Go runtime's stack, not this code.",
+      "DESIGN.md section 4, C13")
